@@ -43,7 +43,8 @@ type ccase struct {
 	Chain    []string `json:"chain"`
 	Env      string   `json:"env"`
 	Script   []step   `json:"script"`
-	Real     string   `json:"real,omitempty"` // dedicated cases: a real security filter sits at chain position RealSlot
+	Oneway   bool     `json:"oneway,omitempty"` // one-way request: a bolt one-way frame through the xprotocol listener
+	Real     string   `json:"real,omitempty"`   // dedicated cases: a real security filter sits at chain position RealSlot
 	RealSlot int      `json:"realslot,omitempty"`
 	RealCode int      `json:"realcode,omitempty"`
 	Fwd      int      `json:"fwd"`
@@ -206,6 +207,12 @@ func (s *scripted) Append(ctx context.Context, headers api.HeaderMap, buf api.Io
 	return ret
 }
 
+// dsClient is the downstream side of one run (raw HTTP/1 or raw bolt connection).
+type dsClient interface {
+	Recv(d, grace time.Duration) e2e.Outcome
+	Close()
+}
+
 func u32(x interface{}) uint64 {
 	switch v := x.(type) {
 	case uint32:
@@ -254,9 +261,17 @@ func main() {
 	defer u1.Close()
 	u2 := e2e.NewHTTPUpstream("u2", reg)
 	defer u2.Close()
+	// one-way requests exist for xprotocol only: a bolt listener with the same scripted filters and two bolt upstreams
+	e2e.RegisterBolt()
+	b1 := e2e.NewBoltUpstream("u1", reg)
+	defer b1.Close()
+	b2 := e2e.NewBoltUpstream("u2", reg)
+	defer b2.Close()
 	clusters := e2e.BuildClusters([]e2e.ClusterSpec{
 		{Name: "main", Hosts: []string{u1.Addr}},
 		{Name: "alt", Hosts: []string{u2.Addr}},
+		{Name: "mainx", Hosts: []string{b1.Addr}},
+		{Name: "altx", Hosts: []string{b2.Addr}},
 	})
 	altMatch := func(r *v2.Router) {
 		r.Match.Headers = []v2.HeaderMatcher{{Name: "x-verif-alt", Value: "1"}}
@@ -269,9 +284,20 @@ func main() {
 	}
 	// listener "c14": scripted filters only. Listeners with a real security filter in front of / between the
 	// scripted ones: the request is denied by the real filter (dedicated cases).
-	laddr := e2e.FreeAddr()
+	laddr := e2e.ListenerAddr()
 	listeners := []v2.Listener{e2e.BuildListener(e2e.ListenerSpec{Name: "c14", Addr: laddr, Downstream: "Http1", Upstream: "Http1",
 		Routes: routes, StreamFilters: []v2.Filter{scriptedFilter(1), scriptedFilter(2), scriptedFilter(3), scriptedFilter(4)}})}
+	xaddr := e2e.ListenerAddr()
+	listeners = append(listeners, e2e.BuildListener(e2e.ListenerSpec{Name: "c14x", Addr: xaddr, Downstream: "X", Upstream: "X", SubProto: "bolt",
+		Routes: []e2e.RouteSpec{ // xprotocol requests are routed by headers; the re-match verdict sets x-verif-alt
+			{Cluster: "altx", RetryOn: true, NumRetries: 2, Extra: func(r *v2.Router) {
+				r.Match = v2.RouterMatch{Headers: []v2.HeaderMatcher{{Name: "x-verif-alt", Value: "1"}}}
+			}},
+			{Cluster: "mainx", RetryOn: true, NumRetries: 2, Extra: func(r *v2.Router) {
+				r.Match = v2.RouterMatch{Headers: []v2.HeaderMatcher{{Name: "cluster", Value: "mainx"}}}
+			}},
+		},
+		StreamFilters: []v2.Filter{scriptedFilter(1), scriptedFilter(2), scriptedFilter(3), scriptedFilter(4)}}))
 	realAddr := map[string]string{}
 	realFilters := map[string]v2.Filter{
 		"ipaccess": {Type: "ip_access", Config: map[string]interface{}{"default_action": "deny",
@@ -282,7 +308,7 @@ func main() {
 	for _, name := range []string{"ipaccess", "payloadlimit", "faultinject"} {
 		// configured order: scripted filter (chain position 1), the real filter (position 2), scripted filters (3, 4)
 		fs := []v2.Filter{scriptedFilter(1), realFilters[name], scriptedFilter(3), scriptedFilter(4)}
-		a := e2e.FreeAddr()
+		a := e2e.ListenerAddr()
 		realAddr[name] = a
 		listeners = append(listeners, e2e.BuildListener(e2e.ListenerSpec{Name: "c14" + name, Addr: a, Downstream: "Http1", Upstream: "Http1",
 			Routes: routes, StreamFilters: fs}))
@@ -290,6 +316,7 @@ func main() {
 	m := e2e.StartMosn(e2e.BuildConfig(listeners, clusters, e2e.ScratchLog(tmp)))
 	defer m.Close()
 	vh.Must(e2e.WaitListen(laddr, 10*time.Second), "mosn listener")
+	vh.Must(e2e.WaitListen(xaddr, 10*time.Second), "mosn listener (bolt)")
 	for _, a := range realAddr {
 		vh.Must(e2e.WaitListen(a, 10*time.Second), "mosn listener (real filter)")
 	}
@@ -364,6 +391,7 @@ func main() {
 
 	active := func() int64 {
 		n := metrics.NewListenerStats("c14").Counter(metrics.DownstreamRequestActive).Count()
+		n += metrics.NewListenerStats("c14x").Counter(metrics.DownstreamRequestActive).Count()
 		for name := range realAddr {
 			n += metrics.NewListenerStats("c14" + name).Counter(metrics.DownstreamRequestActive).Count()
 		}
@@ -391,6 +419,8 @@ func main() {
 			atomic.StoreInt64(&streams, 0)
 			if c.Real != "" {
 				wantListener.Store("c14" + c.Real)
+			} else if c.Oneway {
+				wantListener.Store("c14x")
 			} else {
 				wantListener.Store("c14")
 			}
@@ -408,7 +438,7 @@ func main() {
 				<-reg.Arrived
 			}
 			upScript := map[string]string{"ok": "ok", "retry503": "s503,ok", "close": "close", "aterm": "gate", "lterm": "ok",
-				"atermA": "gate", "atermB": "gate", "atermC": "gate", "atermD": "gate"}[c.Env]
+				"atermA": "gate", "atermB": "gate", "atermC": "gate", "atermD": "gate", "rterm": "s503,gate", "rtermT": "s503,hang"}[c.Env]
 			prefix := "/r/"
 			if c.Env == "close" {
 				prefix = "/p/"
@@ -416,6 +446,9 @@ func main() {
 			hdr := map[string]string{"X-Token": tok, "X-Script": upScript}
 			if c.Env == "atermC" {
 				hdr["x-mosn-global-timeout"] = "150"
+			}
+			if c.Env == "rtermT" {
+				hdr["x-mosn-global-timeout"] = "400"
 			}
 			addr := laddr
 			method, body := "GET", ""
@@ -429,13 +462,22 @@ func main() {
 			if holdEarly {
 				sched.Hold("ds.wait")
 			}
-			cl, err := e2e.DialHTTP(addr)
-			for i := 0; err != nil && i < 8; i++ { // a loaded machine may miss the 1 s dial deadline
-				time.Sleep(200 * time.Millisecond)
-				cl, err = e2e.DialHTTP(addr)
+			var cl dsClient
+			if c.Oneway {
+				bc, err := e2e.DialBolt(xaddr)
+				vh.Must(err, "dial proxy (bolt)")
+				vh.Must(bc.Send(true, 3000, map[string]string{"cluster": "mainx", "token": tok, "script": "ok"}, tok), "send one-way")
+				cl = bc
+			} else {
+				hc, err := e2e.DialHTTP(addr)
+				for i := 0; err != nil && i < 8; i++ { // a loaded machine may miss the 1 s dial deadline
+					time.Sleep(200 * time.Millisecond)
+					hc, err = e2e.DialHTTP(addr)
+				}
+				vh.Must(err, "dial proxy")
+				vh.Must(hc.Send(method, prefix+"x?tok="+tok, hdr, body), "send")
+				cl = hc
 			}
-			vh.Must(err, "dial proxy")
-			vh.Must(cl.Send(method, prefix+"x?tok="+tok, hdr, body), "send")
 
 			diverged := false
 			if c.Env == "aterm" || c.Env == "atermA" || c.Env == "atermB" || c.Env == "atermC" || c.Env == "atermD" {
@@ -496,6 +538,45 @@ func main() {
 					diverged = true
 				}
 				sched.ReleaseAll()
+			}
+			if c.Env == "rterm" || c.Env == "rtermT" {
+				// The first attempt is answered with 503 and retried; the upstream holds the second attempt. TerminateStream is
+				// called through a filter's handler while that attempt is in flight; then the upstream answers (rterm) or stays
+				// silent until the global timeout (rtermT). The request may also end before a second attempt (a send filter
+				// terminated it): then nothing is called.
+				second, over, early := false, false, false
+				dl := time.Now().Add(8 * time.Second)
+				for !second && !over && time.Now().Before(dl) {
+					select {
+					case a := <-reg.Arrived:
+						second = a.Token == tok && a.Attempt == 1
+					case <-time.After(10 * time.Millisecond):
+					}
+					for _, e := range sched.Events(mark) {
+						if e.Name == "ds.clean" {
+							over = true
+						}
+						if e.Name == "ds.gtimer" {
+							early = true
+						}
+					}
+				}
+				st.mu.Lock()
+				h := st.handler
+				st.mu.Unlock()
+				switch {
+				case second && !early && h != nil:
+					if !h.TerminateStream(asyncCode) { // success is recorded through the ds.hijack hook event
+						tr.Emit(vh.Ev{"ev": "aterm", "ok": false})
+					}
+					if c.Env == "rterm" {
+						reg.Release(tok, 1)
+					}
+				case over && !early:
+				default: // the global timer fired before the second attempt (loaded machine), or nothing happened in time
+					diverged = true
+					reg.ReleaseAll()
+				}
 			}
 			// every request ends with ds.clean (after the reply was written, or without reply when a filter terminated it)
 			sawNew := func() uint64 {
@@ -560,6 +641,17 @@ func main() {
 				}
 			}
 			upset := map[string]bool{}
+			// a request handed to an upstream connection (us.attempt "sent") is written asynchronously: wait until the
+			// scripted upstreams have seen as many requests as the proxy says it sent
+			sent := 0
+			for _, e := range sched.Events(mark) {
+				if e.Name == "us.attempt" && len(e.KV) > 2 && fmt.Sprint(e.KV[2]) == "sent" && u32(e.KV[0]) == rid {
+					sent++
+				}
+			}
+			for i := 0; i < 3000 && len(reg.Arrivals(tok)) < sent; i++ {
+				time.Sleep(time.Millisecond)
+			}
 			arr := reg.Arrivals(tok)
 			for _, a := range arr {
 				upset[a.Upstream] = true
